@@ -755,7 +755,7 @@ theorem execArrayIndex_bud (c : Ctx) {item : ItemK} (hI : BudI item) (s : St) (s
   unfold execArrayIndex
   try dsimp only
   split
-  · simpa [bud_returnVerboseError_st] using h
+  · simpa [bud_structural_st] using h
   · rename_i xs _
     have hinv : iacc_bud (subs.foldl (indexSubStep c item nx xs v)
         ⟨{ s with innermost := xs.length }, f, .notFound, none, none⟩) = none := by
@@ -1240,8 +1240,8 @@ theorem execMethodSize_frame (hS : FrameI ρ i₁ i₂) (g : Shift) (s : St) (nx
   unfold execMethodSize
   split
   · exact executeNextItem_frame c hS g s nx _ f hn
-  · simp only [Shift.st_ignoreSE, setRoot_lax]
-    exact ite_frame g.res (fun _ => returnVerboseError_frame g s f)
+  · simp only [setRoot_lax]
+    exact ite_frame g.res (fun _ => structural_frame g s f)
       (fun _ => executeNextItem_frame c hS g s nx _ f hn)
 
 theorem execConvMethod_frame (hS : FrameI ρ i₁ i₂) (hSA : FrameA ρ a₁ a₂) (g : Shift) (s : St) (n : Node)
@@ -1782,7 +1782,7 @@ theorem execArrayIndex_frame (hS : FrameI ρ i₁ i₂) (g : Shift) (s : St) (su
   rw [show arrayOf (setRoot ρ c) v = arrayOf c v from rfl]
   generalize arrayOf c v = o
   cases o with
-  | none => exact returnVerboseError_frame g s f
+  | none => exact structural_frame g s f
   | some xs =>
     have hfold := foldl_mem_frame g.noInn.iacc (indexSubStep c i₁ nx xs v)
       (indexSubStep (setRoot ρ c) i₂ nx xs v) subs
@@ -2396,8 +2396,7 @@ theorem execMethodSize_comp (H : Hyp c S Φ item bool any) {t sB : St} (l m : Li
   cases v with
   | arr xs => exact executeNextItem_comp H l m nx _ hj hcx
   | _ =>
-    simp only [mix_ignoreSE]
-    exact comp_ite (fun _ => returnVerboseError_comp _ _ _ _) (fun _ => executeNextItem_comp H l m nx _ hj hcx)
+    exact comp_ite (fun _ => structural_comp _ _ _ _) (fun _ => executeNextItem_comp H l m nx _ hj hcx)
 
 theorem execConvMethod_comp (H : Hyp c S Φ item bool any) {t sB : St} (l m : List Item) (nB : Node)
     (nx : Option Node) (v : Item) (unwrap : Bool) (conv : Item → Conv) (hj : Junc t sB) (hc : ChainOK sB nB)
@@ -3368,7 +3367,7 @@ theorem execArrayIndex_comp (H : Hyp c S Φ item bool any) {t sB : St} (l m : Li
       (execArrayIndex c item sB subs nx v (some m)) := by
   unfold execArrayIndex
   cases harr : arrayOf c v with
-  | none => exact returnVerboseError_comp _ _ _ _
+  | none => exact structural_comp _ _ _ _
   | some ys =>
     simp only
     have hcn' : t.ignoreSE = true ∨ NoAnyO nx = true := by
@@ -4512,8 +4511,7 @@ theorem execMethodSize_compP (H : HypP c S Φ item bool any) {t sB : St} (m : Li
   cases v with
   | arr xs => exact executeNextItem_compP H m nx _ hj hcx
   | _ =>
-    simp only [mix_ignoreSE]
-    exact compP_ite (fun _ => returnVerboseError_compP _ _ _) (fun _ => executeNextItem_compP H m nx _ hj hcx)
+    exact compP_ite (fun _ => structural_compP _ _ _) (fun _ => executeNextItem_compP H m nx _ hj hcx)
 
 theorem execConvMethod_compP (H : HypP c S Φ item bool any) {t sB : St} (m : List Item) (nB : Node)
     (nx : Option Node) (v : Item) (unwrap : Bool) (conv : Item → Conv) (hj : Junc t sB) (hc : ChainOK sB nB)
@@ -5411,7 +5409,7 @@ theorem execArrayIndex_compP (H : HypP c S Φ item bool any) {t sB : St} (m : Li
       (execArrayIndex c item sB subs nx v (some m)) := by
   unfold execArrayIndex
   cases harr : arrayOf c v with
-  | none => exact returnVerboseError_compP _ _ _
+  | none => exact structural_compP _ _ _
   | some ys =>
     simp only
     have hcn' : t.ignoreSE = true ∨ NoAnyO nx = true := by
